@@ -2,6 +2,7 @@ package rules
 
 import (
 	"go/ast"
+	"sort"
 	"strings"
 
 	"golang.org/x/tools/go/ssa"
@@ -47,14 +48,40 @@ func c04snapshot(c *core.Ctx) {
 	const R = "C04.snapshot"
 	c.Rule(R, "in the load closure of JSchema the store to JSchema.ASTNode (from BuildASTNode) happens before the call to loader.CompileBasic, and CompileAllOf / AddUnnamedTypes are called only from the Compile closure: compilation rewrites the constraint sets (deletes `type`, folds exclusiveMinimum, adds required-keys, merges allOf), which must not show in the AST")
 	c.Floor(R, 3)
+	oc := onceClosures(c)
+	// the function that does the loading: the closure handed to LoadOnce.Do in JSchema.load, or the
+	// method it forwards to - whichever stores JSchema.ASTNode
 	var load *ssa.Function
-	for f := range c.P.AllFuncs {
-		if core.FuncName(f) == "(*notations/jschema.JSchema).load$1" {
-			load = f
+	var cands []*ssa.Function
+	for f, parent := range oc {
+		if parent == "(*notations/jschema.JSchema).load" {
+			cands = append(cands, f)
+			for _, g := range c.P.SuccsDirect(f) {
+				if core.FuncPkgPath(g) == core.FuncPkgPath(f) {
+					cands = append(cands, g)
+					for _, h := range c.P.SuccsDirect(g) {
+						if core.FuncPkgPath(h) == core.FuncPkgPath(f) {
+							cands = append(cands, h)
+						}
+					}
+				}
+			}
+		}
+	}
+	sort.Slice(cands, func(i, j int) bool { return cands[i].String() < cands[j].String() })
+	for _, f := range cands {
+		for _, b := range f.Blocks {
+			for _, in := range b.Instrs {
+				if st, ok := in.(*ssa.Store); ok {
+					if fa, ok := st.Addr.(*ssa.FieldAddr); ok && absintFieldName(fa) == "ASTNode" && load == nil {
+						load = f
+					}
+				}
+			}
 		}
 	}
 	if load == nil {
-		c.Unresolved(R, "(*notations/jschema.JSchema).load$1")
+		c.Unresolved(R, "the function under JSchema.LoadOnce that stores JSchema.ASTNode")
 		return
 	}
 	var storeBlk, callBlk *ssa.BasicBlock
@@ -87,9 +114,13 @@ func c04snapshot(c *core.Ctx) {
 			}
 		}
 		okc := len(callers) > 0
-		for _, cl := range callers {
-			if cl != "(*notations/jschema.JSchema).Compile$1" {
-				okc = false
+		for f := range c.P.AllFuncs {
+			if core.FuncName(f) == name {
+				for _, e := range c.P.CallersOf(f) {
+					if c.P.FuncInScope(e.Caller.Func) && !underOnceOf(c, oc, e.Caller.Func, "(*notations/jschema.JSchema).Compile", 3) {
+						okc = false
+					}
+				}
 			}
 		}
 		c.Check(okc, R, "callers:"+name, "-", core.F("%s is called only from the Compile closure (callers: %v)", name, callers), "a compilation step that rewrites the tree runs outside Compile (e.g. during load, before the AST snapshot)")
@@ -98,53 +129,110 @@ func c04snapshot(c *core.Ctx) {
 
 func c04collect(c *core.Ctx) {
 	const R = "C04.collect"
-	c.Rule(R, "the switch in ischema.collectASTRules has exactly two special cases - `or` (emitted under OrConstraintType.String() with the types list) and `types` (nothing) - and its default forwards the rule as Set(k.String(), v.ASTNode()); the callback never returns early for other kinds")
+	c.Rule(R, "the callback of ischema.collectASTRules, evaluated for every constraint kind: `or` is emitted under OrConstraintType.String() with the AST of the types list, `types` emits nothing, every other kind is forwarded as Set(k.String(), v.ASTNode()) - exactly one Set per kind and no early error (one cell per constraint.Type constant)")
 	c.Floor(R, 3)
 	d := c.P.FindDecl("notations/jschema/ischema.collectASTRules")
 	if d == nil {
 		c.Unresolved(R, "notations/jschema/ischema.collectASTRules")
 		return
 	}
-	var sw *ast.SwitchStmt
+	// the callback handed to Each
+	var lit *ast.FuncLit
 	ast.Inspect(d.Decl.Body, func(n ast.Node) bool {
-		if s, ok := n.(*ast.SwitchStmt); ok && sw == nil {
-			sw = s
+		if call, ok := n.(*ast.CallExpr); ok && strings.HasSuffix(core.ExprStr(call.Fun), ".Each") && len(call.Args) == 1 && lit == nil {
+			lit, _ = call.Args[0].(*ast.FuncLit)
 		}
 		return true
 	})
-	if sw == nil {
-		c.Bad(R, "switch", c.P.Pos(d.Decl.Pos()), "collectASTRules switch", "undecided: no switch over the constraint kind")
+	if lit == nil || len(lit.Type.Params.List) == 0 {
+		c.Bad(R, "callback", c.P.Pos(d.Decl.Pos()), "collectASTRules callback", "undecided: no function literal handed to Each")
 		return
 	}
-	var special []string
-	defOK := false
-	for _, cl := range sw.Body.List {
-		cc := cl.(*ast.CaseClause)
-		if cc.List == nil {
-			if len(cc.Body) == 1 {
-				s := core.ExprStr(cc.Body[0].(*ast.ExprStmt).X)
-				defOK = strings.HasSuffix(s, ".Set(k.String(), v.ASTNode())")
-			}
-			continue
-		}
-		for _, e := range cc.List {
-			special = append(special, core.ConstName(d.Pkg, e))
+	var pnames []string
+	for _, f := range lit.Type.Params.List {
+		for _, n := range f.Names {
+			pnames = append(pnames, n.Name)
 		}
 	}
-	okSpecial := len(special) == 2 && ((special[0] == "OrConstraintType" && special[1] == "TypesListConstraintType") || (special[1] == "OrConstraintType" && special[0] == "TypesListConstraintType"))
-	c.Check(okSpecial, R, "special-cases", c.P.Pos(sw.Pos()), core.F("special cases of collectASTRules: %v", special), "a rule kind other than `or`/`types` is special-cased: it is dropped from or renamed in the AST")
-	c.Check(defOK, R, "default", c.P.Pos(sw.Pos()), "default case: nn.Set(k.String(), v.ASTNode())", "the default case no longer forwards the rule under its own name with its own AST value")
-	// `or` case emits under the or name with types.ASTNode()
-	orOK := false
-	ast.Inspect(sw, func(n ast.Node) bool {
-		if call, ok := n.(*ast.CallExpr); ok && strings.HasSuffix(core.ExprStr(call.Fun), ".Set") && len(call.Args) == 2 {
-			if core.ExprStr(call.Args[0]) == "constraint.OrConstraintType.String()" && strings.HasSuffix(core.ExprStr(call.Args[1]), ".ASTNode()") {
-				orOK = true
+	if len(pnames) != 2 {
+		c.Bad(R, "callback", c.P.Pos(lit.Pos()), "collectASTRules callback", "undecided: the callback does not take (kind, constraint)")
+		return
+	}
+	kvar, vvar := pnames[0], pnames[1]
+	nt := c.P.NamedType("notations/jschema/ischema/constraint", "Type")
+	if nt == nil {
+		c.Unresolved(R, "constraint.Type")
+		return
+	}
+	kinds := core.ConstsOfType(c.P.Pkg("notations/jschema/ischema/constraint"), nt)
+	bad := map[string]string{}
+	nOther := 0
+	for _, k := range kinds {
+		kv, ok := constantInt64(k.Val)
+		if !ok {
+			continue
+		}
+		e := &miniEval{pk: d.Pkg, env: map[string]int64{kvar: kv, "nil": 0}}
+		typesVar := ""
+		e.tuple = func(call *ast.CallExpr) ([]int64, bool) {
+			if strings.HasSuffix(core.ExprStr(call.Fun), ".Get") {
+				return []int64{0, 1}, true
+			}
+			return nil, false
+		}
+		e.hook = func(x ast.Expr) (int64, bool) {
+			switch y := x.(type) {
+			case *ast.Ident:
+				if y.Name == "nil" {
+					return 0, true
+				}
+			case *ast.CallExpr:
+				if t := core.TypeOf(d.Pkg, y); t != nil && core.IsErrorType(t) {
+					return 1, true
+				}
+			}
+			return 0, false
+		}
+		// remember which variable holds the types list
+		ast.Inspect(lit.Body, func(n ast.Node) bool {
+			if as, ok := n.(*ast.AssignStmt); ok && len(as.Lhs) == 2 && len(as.Rhs) == 1 && strings.Contains(core.ExprStr(as.Rhs[0]), "TypesListConstraintType") {
+				typesVar = core.ExprStr(as.Lhs[0])
+			}
+			return true
+		})
+		st, rets := e.run(lit.Body.List)
+		var sets []string
+		for _, ef := range e.effects {
+			if strings.Contains(ef, ".Set(") {
+				sets = append(sets, ef)
 			}
 		}
-		return true
-	})
-	c.Check(orOK, R, "or-case", c.P.Pos(sw.Pos()), "`or` is emitted under its own name with the types list as value", "the `or` rule is no longer reported with its alternatives")
+		errRet := st == miniReturn && len(rets) == 1 && rets[0] != 0
+		switch {
+		case e.unknown != "":
+			bad["cells"] = k.Name + ": undecided: " + e.unknown
+		case errRet:
+			bad["cells"] = k.Name + ": returns an error"
+		case k.Name == "OrConstraintType":
+			if len(sets) != 1 || !strings.Contains(sets[0], "OrConstraintType.String()") || !strings.HasSuffix(sets[0], typesVar+".ASTNode())") {
+				bad["or-case"] = core.F("`or`: %v", sets)
+			}
+		case k.Name == "TypesListConstraintType":
+			if len(sets) != 0 {
+				bad["special-cases"] = core.F("`types` emits %v", sets)
+			}
+		default:
+			nOther++
+			if len(sets) != 1 || !strings.HasSuffix(sets[0], ".Set("+kvar+".String(), "+vvar+".ASTNode())") {
+				bad["default"] = core.F("%s: %v", k.Name, sets)
+			}
+		}
+	}
+	pos := c.P.Pos(lit.Pos())
+	c.Check(bad["cells"] == "", R, "cells", pos, core.F("the callback decided for all %d constraint kinds", len(kinds)), bad["cells"])
+	c.Check(bad["special-cases"] == "", R, "special-cases", pos, "`types` emits nothing", "the types list is reported as a rule of its own: "+bad["special-cases"])
+	c.Check(bad["default"] == "" && nOther > 10, R, "default", pos, core.F("%d other kinds: Set(k.String(), v.ASTNode())", nOther), "a rule kind is dropped from, renamed in or doubled in the AST: "+bad["default"])
+	c.Check(bad["or-case"] == "", R, "or-case", pos, "`or` is emitted under its own name with the types list as value", "the `or` rule is no longer reported with its alternatives: "+bad["or-case"])
 }
 
 // c04raw: AST value of value-carrying rules is a loss-free function of the source bytes.
@@ -230,4 +318,27 @@ func keysOf(m map[string]bool) []string {
 	}
 	sortStrings(out)
 	return out
+}
+
+// underOnceOf: does f run only under a once closure created in the function named parent - it is
+// such a closure, or every one of its callers (up to depth) is?
+func underOnceOf(c *core.Ctx, oc map[*ssa.Function]string, f *ssa.Function, parent string, depth int) bool {
+	if p, ok := oc[f]; ok && p == parent {
+		return true
+	}
+	if depth == 0 {
+		return false
+	}
+	callers := c.P.CallersOf(f)
+	n := 0
+	for _, e := range callers {
+		if !c.P.FuncInScope(e.Caller.Func) && !strings.HasSuffix(e.Caller.Func.Name(), "$bound") {
+			continue
+		}
+		n++
+		if !underOnceOf(c, oc, e.Caller.Func, parent, depth-1) {
+			return false
+		}
+	}
+	return n > 0
 }
